@@ -169,10 +169,11 @@ def elementwise(eng, f, *vals, dtype=None):
             shape = broadcast_shapes(eng, shape, v.shape)
     n = len(shape)
     fns = [(v.fn, v.shape) if isinstance(v, I.Arr) else None for v in vals]
+    scalars = [None if isinstance(v, I.Arr) else v for v in vals]      # the closure keeps snapshots, not the operand objects (view liveness)
 
     def fn(*idx):
         args = []
-        for v, g in zip(vals, fns):
+        for v, g in zip(scalars, fns):
             if g is None:
                 args.append(v)
             else:
@@ -556,6 +557,9 @@ def iterate(eng, v, allow_symbolic=False):
             c = T.simp(n)
             if T.is_sym(c):
                 if allow_symbolic:
+                    if v.ndim == 1:
+                        # the loop index lies in [0, n): no negative-index normalisation, no bounds obligation
+                        return SymbolicRange(0, n, 1, wrap=lambda k, i, v=v: v.fn(i))
                     return SymbolicRange(0, n, 1, wrap=lambda k, i, v=v: getitem(eng, v, i))
                 raise Unsupported("iteration over an array of symbolic length without an invariant")
             n = c
@@ -825,8 +829,7 @@ def arr_getitem(eng, a, idx):
         return fn()
     res = I.Arr(tuple(out_shape), fn, a.dtype)
     if not fancy:
-        res.base = a.base if a.base is not None else a
-        res.base.nviews += 1
+        register_view(res, a.base if a.base is not None else a)
     return res
 
 
@@ -872,6 +875,19 @@ def setitem(eng, base, idx, value):
     if isinstance(base, I.Arr):
         return arr_setitem(eng, base, idx, value)
     raise Unsupported(f"item assignment on {type(base).__name__}")
+
+
+def register_view(view, base):
+    """A view is live exactly as long as the view *object* is: arrays computed from it hold snapshots of its element function (NumPy
+    computes eagerly), so once nobody holds the view itself a later write to the base cannot be observed through it."""
+    import weakref
+    view.base = base
+    base.nviews += 1
+
+    def _dead(b=base):
+        if b.nviews > 0:
+            b.nviews -= 1
+    weakref.finalize(view, _dead)
 
 
 def check_writable(a):
@@ -1133,8 +1149,7 @@ def transpose(eng, a, axes=None):
             src[src_ax] = i[out_ax]
         return f(*src)
     r = I.Arr(shape, fn, a.dtype)
-    r.base = a.base if a.base is not None else a
-    r.base.nviews += 1
+    register_view(r, a.base if a.base is not None else a)
     return r
 
 
@@ -1269,8 +1284,7 @@ def reshape(eng, a, newshape, order="C"):
     r = I.Arr(newshape, fn, a.dtype)
     if order == "C":
         r.flat = src_flat if src_flat is not None else None
-    r.base = a.base if a.base is not None else a
-    r.base.nviews += 1
+    register_view(r, a.base if a.base is not None else a)
     return r
 
 
